@@ -55,8 +55,13 @@ def stiff_sets(rng, ref, backend, tier):
     par = sorted(ref.params)
     inter = [a for a in ref.intermediates]
     base = sorted(rng.sample(st, max(1, n // 2)))
-    foreign = [par[0] if par else "zz", inter[0] if inter else "ww", ref.derivs[st[0]], "not_a_name", st[0][:-1] or "q", st[0] + "x"]
-    foreign = [f for f in foreign if f not in st]
+    # near misses of a state that is *not* in the set (so that resolving one of them to the state would be visible):
+    # other case, surrounding blanks, a prefix, an extension, the name of its derivative
+    rest = [s for s in st if s not in base]
+    tgt = rest[0] if rest else st[0]
+    foreign = [par[0] if par else "zz", inter[0] if inter else "ww", ref.derivs[tgt], "not_a_name", tgt[:-1] or "q", tgt + "x",
+               tgt.upper(), tgt.lower(), tgt.capitalize(), tgt.swapcase(), " " + tgt, tgt + " ", tgt + "_", "d" + tgt]
+    foreign = list(dict.fromkeys(f for f in foreign if f not in st))
     out.append((base + foreign, base))
     out.append((base + base, base))
     return out
